@@ -5,7 +5,7 @@ from core import call_matches, call_names, op_place, backward_slice
 from props import shared
 
 LEVEL = 'proof'
-FLOOR = 40
+FLOOR = 78      # 70% of the 112 obligation instances derived on the tree the rules were last reviewed against
 EXPLANATION = ('Clauses decided: publish-before-acknowledge in commit_raw, hand-over order between commit overlay / log overlay / tables, '
                'removal from overlays only by owner id, read layering (commit overlay -> log overlay -> file) under the overlay lock, '
                'in-order use of the change list, single hashing scheme. Value-level correctness of write_plan/index/table algorithms is NOT decided.')
